@@ -39,11 +39,11 @@ type Result struct {
 	DiffLines         [][2]string // differing lines (in, out), a few
 
 	// fixpoint (C02)
-	ReparseErr   string
-	ReparsePanic string
-	Printed2     string
-	Fixpoint     bool
-	DigestEqual  bool
+	ReparseErr    string
+	ReparsePanic  string
+	Printed2      string
+	Fixpoint      bool
+	DigestEqual   bool
 	Reprint2Panic string
 }
 
